@@ -138,6 +138,41 @@ Theorem keyed_lookups_find_keys : forall s ins, Forall (fun kv : value * value =
 Proof. exact CmpProofs.keyed_lookups. Qed.
 Print Assumptions keyed_lookups_find_keys.
 
+(* 16. Tuples hold POINTERS, possibly the same one in several slots.  With the index walk of the
+       working tree (Generated.tuple_cmp_self_by_index) cmp(Tuple, sequence) depends on the values in
+       the slots only, for EVERY aliasing pattern: it is cmp of the value sequence, to which 1-10 apply *)
+Theorem tuple_cmp_depends_on_values_only : forall (items : pitems) k ys,
+  operand_cmp (OTup items) (OVal (VSeq k ys)) =
+  out_of_option (value_cmp (VSeq KTuple (map snd items)) (VSeq k ys)).
+Proof. exact CmpProofs.tuple_cmp_values_only. Qed.
+Print Assumptions tuple_cmp_depends_on_values_only.
+
+(* 17. as RIGHT operand a Tuple is walked with Tuple_Iter_Next (first slot holding the cursor): with
+       pairwise different pointers that walk yields exactly the value sequence ... *)
+Theorem alias_free_right_tuple_is_its_values : forall items, NoDup (map fst items) ->
+  forall fuel s0, walk_cmp fuel s0 (SIter items (hd_error items)) = walk_cmp fuel s0 (SList (map snd items)).
+Proof. exact CmpProofs.alias_free_tuple_is_its_values. Qed.
+Print Assumptions alias_free_right_tuple_is_its_values.
+
+(* 18. ... and with a repeated pointer it does not (open finding F3 `tuple-repeated-pointer` as it shows
+       in cmp on the unchanged tree): [1,1,2] against tuple(one,one,two) gives 1, also for the tuple against itself *)
+Theorem aliased_right_tuple_refuted :
+  let one := VInt 1 in let two := VInt 2 in
+  let t : pitems := [(1%N, one); (1%N, one); (2%N, two)] in
+  walk_cmp 30 (SList [one; one; two]) (SIter t (hd_error t)) = WRes 1 /\
+  walk_cmp 30 (SList (map snd t)) (SIter t (hd_error t)) = WRes 1.
+Proof. exact CmpProofs.aliased_right_operand_refuted. Qed.
+Print Assumptions aliased_right_tuple_refuted.
+
+(* 19. walking `self` with Tuple_Iter_Next instead of the index (seeded change) is wrong on tuple(one,one,two) *)
+Theorem tuple_cmp_iterator_walk_refuted :
+  let one := VInt 1 in let two := VInt 2 in
+  let t : pitems := [(1%N, one); (1%N, one); (2%N, two)] in
+  walk_cmp 30 (SIter t (hd_error t)) (SList [one; one; two]) = WRes (-1) /\
+  walk_cmp 30 (SList (map snd t)) (SList [one; one; two]) = WRes 0.
+Proof. exact CmpProofs.tuple_cmp_iter_walk_refuted. Qed.
+Print Assumptions tuple_cmp_iterator_walk_refuted.
+
 (* ------------------------------------------------------------------ non-vacuity of `dom` *)
 Example dom_inhabited_scalars :
   dom SInt (VInt 4294967296) /\ dom SInt (VInt (-9223372036854775808)) /\
@@ -151,6 +186,9 @@ Example dom_inhabited_containers :
   dom (SSeq (SSeq SStr)) (VSeq KList [VSeq KTuple [VStr [97]%N]; VSeq KArray []]) /\
   dom (STree SInt SStr) (VTree [(VInt 1, VStr [97]%N); (VInt 0, VStr []%N)]).
 Proof. vm_compute. repeat split. Qed.
+
+Example alias_free_nonvacuous : NoDup (map fst ([(1%N, VInt 1); (2%N, VInt 1); (3%N, VInt 2)] : pitems)).
+Proof. repeat constructor; simpl; intuition discriminate. Qed.
 
 (* the hypotheses of cmp_transitive are satisfiable with strict and non-strict steps *)
 Example cmp_transitive_nonvacuous :
